@@ -1,3 +1,6 @@
+import collections.abc
+import enum
+import operator
 import itertools
 import re
 import contextlib
@@ -587,3 +590,85 @@ def f60(xs):
     v = 2 ** 10
     u = divmod(7, 2)
     return (x, y, z, w, v, u, 1 if not [] else 2, abs(-3), round(2.5), min(3, 1, 2))
+
+
+_MARKER = object()
+
+
+class K61(enum.IntEnum):
+    A = 97
+    D = 100
+
+
+class M62(collections.abc.MutableMapping):
+    def __init__(self):
+        self.d = {}
+
+    def __getitem__(self, k):
+        return self.d[k.lower()]
+
+    def __setitem__(self, k, v):
+        self.d[k.lower()] = v
+
+    def __delitem__(self, k):
+        del self.d[k.lower()]
+
+    def __iter__(self):
+        return iter(self.d)
+
+    def __len__(self):
+        return len(self.d)
+
+
+class N63:
+    def __init__(self, v, prev):
+        self.v = v
+        self._prev = prev
+
+    @property
+    def prev(self):
+        return self._prev
+
+
+_prev_of = operator.attrgetter('prev')
+
+
+def f61(xs):
+    c = ord('a')
+    return (c == K61.A, c != K61.D, c < K61.D, K61.D - c, [x for x in (97, 100, 101) if x == K61.A or x == K61.D])
+
+
+def f62(xs):
+    m = M62()
+    m['Alpha'] = 1
+    return (m.get('ALPHA'), m.get('beta'), m.get('beta', 7), m.setdefault('Beta', 2), m.setdefault('alpha', 9), len(m))
+
+
+def f63(xs):
+    n = None
+    for x in xs:
+        n = N63(x, n)
+    out = []
+    while n:
+        out.append(n.v)
+        n = _prev_of(n)
+    return out
+
+
+def f64(xs):
+    d = {'a': None}
+    r = []
+    for k in ('a', 'b'):
+        v = d.get(k, _MARKER)
+        r.append('absent' if v is _MARKER else v)
+    return (r, _MARKER is _MARKER, _MARKER == _MARKER, _MARKER is None)
+
+
+def f65(xs):
+    n, todo = 0, [200]
+    while todo:
+        k = todo.pop()
+        n += 1
+        if k:
+            todo.append(k - 1)
+    return n
